@@ -8,12 +8,15 @@ CONSTANT MaxN, MaxPos, Mode, PrintMod
 C1 == <<99, 49>>  C2 == <<99, 50>>
 TEx == <<101>>  TGn == <<103>>
 MCNum == {<<<<49, 48>>, 10000>>, <<<<57>>, 9000>>}
-Pats == {"same", "lastSeq", "midSeq", "lastStrand", "firstStrand", "allMinus", "lastType"}
+Pats == {"same", "lastSeq", "midSeq", "lastStrand", "firstStrand", "allMinus", "lastType", "sharedAttrs"}
+\* "sharedAttrs": ID-less neighbours carrying IDENTICAL attributes whose values are neither sorted nor free of repeats (Parent=t2,t1; n=9,10,9)
+SharedAttrs == <<<<T_Parent, <<<<116, 50>>, <<116, 49>>>>>>, <<<<110>>, <<<<57>>, <<49, 48>>, <<57>>>>>>>>
 Mk(i, s, e, n, pat) ==
   [id |-> <<102, 48 + i>>, seqid |-> IF (pat = "lastSeq" /\ i = n /\ n > 1) \/ (pat = "midSeq" /\ i = 2) THEN C2 ELSE C1, source |-> <<115>>,
    ftype |-> IF pat = "lastType" /\ i = n /\ n > 1 THEN TGn ELSE TEx, start |-> s, end |-> e, score |-> DOTT,
    strand |-> IF pat = "allMinus" \/ (pat = "lastStrand" /\ i = n /\ n > 1) \/ (pat = "firstStrand" /\ i = 1 /\ n > 1) THEN MINUSS ELSE PLUS, frame |-> DOTT,
-   attrs |-> <<<<T_ID, <<<<102, 48 + i>>>>>>, <<<<110>>, <<IF i = 2 THEN <<49, 48>> ELSE <<57>>>>>>, <<T_Parent, <<<<116>>>>>>>>, extra |-> <<>>]
+   attrs |-> IF pat = "sharedAttrs" THEN SharedAttrs
+             ELSE <<<<T_ID, <<<<102, 48 + i>>>>>>, <<<<110>>, <<IF i = 2 THEN <<49, 48>> ELSE <<57>>>>>>, <<T_Parent, <<<<116>>>>>>>>, extra |-> <<>>]
 Ivs == {<<s, e>> : s \in 1..MaxPos, e \in 1..MaxPos}
 Valid(iv) == iv[1] <= iv[2]
 InterCfgs == {[newtype |-> nt, mergeAttrs |-> m, numeric |-> nu, update |-> up] :
